@@ -84,6 +84,14 @@ def check(ctx):
             ctx.ob('R1', fi, e['node'], xa == ba, f'axis {xa} coordinates binned with axis {ba} edges' if xa == ba else
                    f'coordinates of axis {xa} are binned with the edges (cell length, resolution) of axis {ba}: for a non-cubic '
                    f'cell samples fall into the wrong voxel or outside the array')
+        gsx = ({x.geo} if x is not None and x.geo is not None else set()) | (set(x.geo_conflict) if x is not None and x.geo_conflict else set())
+        if x is not None and x.axes and x.axes[0].endswith('~'):
+            ctx.ob('R4', fi, e['node'], False, 'only a filtered subset of the coordinates is binned: samples are silently dropped, the voxel sum is '
+                                               'smaller than frames x atoms')
+        if gsx and any(g[0] == 'FRAC' and g[1] != 'W' for g in gsx):
+            ctx.ob('R2', fi, e['node'] if False else f'{norm_text(e["node"])} [range]', False,
+                   'the binned coordinates are not guaranteed to lie in the half-open interval [0, 1): a coordinate equal to 1.0 digitises to '
+                   'index n - 1 = array extent (IndexError / dropped sample)')
         if e['right']:
             ctx.ob('R2', fi, e['node'], False, 'digitize(right=True) puts a coordinate equal to an edge into the lower voxel: not floor(x * n)')
         # edges = linspace(0, 1, n)[1:]
